@@ -4,6 +4,7 @@ Theorems over `HW.ClusterSys` (n agents, per-node registries, a pool of in-fligh
 delivered in an ARBITRARY order), under the well-formedness stated in the model file.
 -/
 import HW.Proofs.ClusterSys
+import HW.Proofs.ClusterJoin
 import HW.Proofs.Cluster
 namespace HW.C19
 open HW.Cluster HW.ClusterSys
@@ -49,6 +50,18 @@ theorem deactivate_everywhere (s : Sys) (hc : Consistent s) (nid : String) (pid 
     Consistent (drain (deactivate s nid pid) order) ∧
     ∀ n ∈ (drain (deactivate s nid pid) order).nodes, getActiveByID n pid.2 = none :=
   ClusterSys.deactivate_everywhere s hc nid pid order hn hlen
+
+/-- a member that joins later learns all active actors: after the topology notifications have been
+    delivered — in ANY order — the joiner resolves every id exactly like everybody else, and the
+    enlarged cluster is consistent. -/
+theorem joiner_learns_all (s : Sys) (hc : Consistent s) (x : Node)
+    (hfresh : ∀ n ∈ s.nodes, n.id ≠ x.id)
+    (hx : x.agent.members = [] ∧ x.agent.activated = [])
+    (order : List Nat) (hlen : (joinNode s x).pool.length ≤ order.length) :
+    Consistent (drain (joinNode s x) order) ∧
+    (∀ n ∈ s.nodes, ∀ k, ∀ x' ∈ (drain (joinNode s x) order).nodes, x'.id = x.id →
+       getActiveByID x' k = getActiveByID n k) :=
+  ClusterSys.joiner_learns_all s hc x hfresh hx order hlen
 
 /-- when a member leaves, every activation hosted on it disappears from a remaining member's view,
     and nothing else does. -/
